@@ -29,7 +29,25 @@ RE_DIR = re.compile(r"^(\d{4})-(\d{2})-(\d{2})T(\d{2})-(\d{2})-(\d{2})$")
 
 
 def budget(tier):
-    return {"examples": 140 if tier == "quick" else 400, "shards": 1 if tier == "quick" else 16}
+    return {"examples": 140 if tier == "quick" else 400, "shards": 1 if tier == "quick" else 16,
+            "examples2": 150 if tier == "quick" else 100}
+
+
+def strategy2(tier):
+    from checks import c11
+    return c11.session_strategy(tier)
+
+
+def _session_tree(tops, cfg, fail):
+    """Second stage: the placement clauses on the trees left by multi-session histories (no model needed: names are a
+    pure function of the indices a file stores; no index in two files)."""
+    r2 = Result()
+    for t in tops:
+        ch = os.path.join(t, "ch0")
+        if os.path.isdir(ch):
+            check_layout(cfg, None, ch, r2, ":sessions")
+    for sig, d in r2.failures:
+        fail("sess-" + sig, d)
 
 
 @st.composite
@@ -45,18 +63,19 @@ def strategy(tier):
 
 def check_layout(cfg, m, ch, res, tag=""):
     files, others = rfharness.raw_files(ch)
-    exp_stamps = m.file_windows()
     exp_paths = {}
-    for ms in exp_stamps:
-        lo, _ = rfmodel.window(cfg, ms)
-        exp_paths[rfmodel.rel_path(cfg, lo)] = ms
-    for o in others:
-        if o not in ("drf_properties.h5",):
-            res.fail("stray-entry" + tag, o)
-    for rel in sorted(set(files) - set(exp_paths)):
-        res.fail("unexpected-file" + tag, "%s (model expects %s...)" % (rel, sorted(exp_paths)[:3]))
-    for rel in sorted(set(exp_paths) - set(files)):
-        res.fail("missing-file" + tag, rel)
+    if m is not None:
+        exp_stamps = m.file_windows()
+        for ms in exp_stamps:
+            lo, _ = rfmodel.window(cfg, ms)
+            exp_paths[rfmodel.rel_path(cfg, lo)] = ms
+        for o in others:
+            if o not in ("drf_properties.h5",):
+                res.fail("stray-entry" + tag, o)
+        for rel in sorted(set(files) - set(exp_paths)):
+            res.fail("unexpected-file" + tag, "%s (model expects %s...)" % (rel, sorted(exp_paths)[:3]))
+        for rel in sorted(set(exp_paths) - set(files)):
+            res.fail("missing-file" + tag, rel)
     seen = []
     for rel, info in sorted(files.items()):
         if "error" in info:
@@ -74,6 +93,8 @@ def check_layout(cfg, m, ch, res, tag=""):
         dsec = calendar.timegm(tuple(int(x) for x in md.groups()) + (0, 0, 0))
         if dsec % cfg["S"]:
             res.fail("dir-not-multiple" + tag, rel)
+        if (stamp // 1000) // cfg["S"] * cfg["S"] != dsec:
+            res.fail("file-in-wrong-dir" + tag, "%s: the directory of stamp %d is %s" % (rel, stamp, rfmodel.subdir_name((stamp // 1000) // cfg["S"] * cfg["S"])))
         for s, ln in rfharness.stored_ranges(info):
             if ln <= 0:
                 continue
@@ -102,6 +123,9 @@ def check_layout(cfg, m, ch, res, tag=""):
 
 
 def run_case(case):
+    if case.get("kind") == "sessions":
+        from checks import c11
+        return c11.run_sessions(case, ("sess-",), _session_tree)
     res = Result()
     cfg = case["cfg"]
     m = c01.build_model(case)
@@ -131,6 +155,9 @@ def run_case(case):
 
 
 def shrink_candidates(case):
+    if case.get("kind") == "sessions":
+        from checks import c11
+        return c11.session_shrink(case)
     return c01.shrink_candidates(dict(case, reads=[[0, 0]]))
 
 
